@@ -284,30 +284,22 @@ impl MT107 {
         parser: &mut crate::parser::MessageParser,
     ) -> Result<(Option<Field50InstructingParty>, Option<Field50Creditor>), crate::errors::ParseError>
     {
-        // Detect which variant of field 50 is present
-        let remaining = parser.remaining();
-        let trimmed = remaining.trim_start_matches(|c: char| c.is_whitespace());
-
-        // Check for instructing party variants (C, L)
-        if trimmed.starts_with(":50C:") {
-            let instructing_party =
-                parser.parse_optional_variant_field::<Field50InstructingParty>("50")?;
-            return Ok((instructing_party, None));
+        // An instructing party (C/L) may be followed by a creditor (A/K)
+        let mut instructing_party = None;
+        let mut creditor = None;
+        for _ in 0..2 {
+            match parser.peek_field_variant("50").as_deref() {
+                Some("C") | Some("L") if instructing_party.is_none() && creditor.is_none() => {
+                    instructing_party =
+                        parser.parse_optional_variant_field::<Field50InstructingParty>("50")?;
+                }
+                Some("A") | Some("K") if creditor.is_none() => {
+                    creditor = parser.parse_optional_variant_field::<Field50Creditor>("50")?;
+                }
+                _ => break,
+            }
         }
-        if trimmed.starts_with(":50L:") {
-            let instructing_party =
-                parser.parse_optional_variant_field::<Field50InstructingParty>("50")?;
-            return Ok((instructing_party, None));
-        }
-
-        // Check for creditor variants (A, K)
-        if trimmed.starts_with(":50A:") || trimmed.starts_with(":50K:") {
-            let creditor = parser.parse_optional_variant_field::<Field50Creditor>("50")?;
-            return Ok((None, creditor));
-        }
-
-        // No field 50 present
-        Ok((None, None))
+        Ok((instructing_party, creditor))
     }
 
     // ========================================================================
